@@ -11,7 +11,7 @@ EXPLANATION = (
     "StreamId::try_from, keeps the rest of the buffer as payload, and both failures carry H3_DATAGRAM_ERROR; "
     "(c) the reader reports decode failures connection-level. Decides these structural clauses, not the value-level "
     "round trip nor the EncodedDatagram chunk/advance arithmetic.")
-RULES = "C18-a encode header flow; C18-b inverse constants + error code; C18-c reader error routing; C18-d sender uses its own stream id; C18-e header/payload cursor of the encoded buffer (extracted-expression evaluation over small states); shared: varint form tables under C18-a; shared through a proxy: C16-a under C18-b"
+RULES = "C18-a encode header flow; C18-b inverse constants + error code, the varint is decoded from the input buffer itself; C18-c reader error routing; C18-d sender uses its own stream id, the Quinn handler sends the whole encoded datagram; C18-e header/payload cursor of the encoded buffer (extracted-expression evaluation over small states); shared: varint form tables under C18-a; shared through a proxy: C16-a under C18-b"
 
 DG = "h3_datagram::datagram::Datagram"
 ENC = "h3_datagram::datagram::EncodedDatagram"
